@@ -92,6 +92,15 @@ for _i, _j in enumerate(JUNK_TEXT):
     JUNK_BY_FAMILY.setdefault(_family(_j), []).append(_i)
 
 
+def sweep_junk(current, salt):
+    """Indices of the junk values worth trying in place of `current`: its whole lexical family plus a seeded dozen of the rest."""
+    fam = _family(current or "")
+    idx = list(JUNK_BY_FAMILY.get(fam, [])) if fam != "other" else []
+    rest = [i for i in range(len(JUNK_TEXT)) if i not in set(idx)]
+    random.Random(salt).shuffle(rest)
+    return idx + rest[:12]
+
+
 def junk_for(current, val):
     """Seven times in ten a junk value of the same lexical family as the value it replaces."""
     fam = JUNK_BY_FAMILY.get(_family(current or ""))
@@ -229,6 +238,29 @@ def apply_byte_fault(data, f, other=b""):
     return data
 
 
+def xml_value_positions(els):
+    """Every place of a document that carries a value: leaf elements with text, then attributes, in document order."""
+    out = [(e, None) for e in els if len(e) == 0 and (e.text or "").strip()]
+    for e in els:
+        out.extend((e, a) for a in sorted(e.attrib) if not a.startswith("{http://www.w3.org/2001/XMLSchema-instance}"))
+    return out
+
+
+def xml_values(data):
+    from lxml import etree
+
+    try:
+        root = etree.fromstring(data, etree.XMLParser(resolve_entities=False))
+    except Exception:
+        return []
+    return [(e.text if a is None else e.get(a)) for e, a in xml_value_positions(_elements(root))]
+
+
+def json_value_leaves(value):
+    paths = _json_paths(value)
+    return [p for p in paths if isinstance(_get(value, p), (str, int, float)) and not isinstance(_get(value, p), bool)]
+
+
 def apply_xml_struct_fault(data, f):
     """Tree-level fault, re-stored as bytes. Returns (bytes, landed)."""
     from lxml import etree
@@ -343,6 +375,15 @@ def apply_xml_struct_fault(data, f):
             if el is el2 or el.getparent() is None or el in el2.iterancestors() or el2 in el.iterancestors():
                 return data, False
             el2.append(el)
+        elif k == "value_set":
+            positions = xml_value_positions(els)
+            if not positions:
+                return data, False
+            e, attr = positions[f["idx"] % len(positions)]
+            if attr is None:
+                e.text = JUNK_TEXT[f["val"] % len(JUNK_TEXT)]
+            else:
+                e.set(attr, JUNK_TEXT[f["val"] % len(JUNK_TEXT)])
         elif k == "text_corrupt":
             leaves = [e for e in els if len(e) == 0 and (e.text or "").strip()]
             if leaves and f["idx2"] % 5:
@@ -497,6 +538,11 @@ def apply_json_struct_fault(value, f):
             return _set(value, path, junk), True
         if k == "list_wrap":
             return _set(value, path, [_get(value, path)]), True
+        if k == "value_set":
+            leaves = json_value_leaves(value)
+            if not leaves:
+                return value, False
+            return _set(value, leaves[f["idx"] % len(leaves)], JUNK_TEXT[f["val"] % len(JUNK_TEXT)]), True
         if k == "value_text":
             # a string leaf replaced by one of the lexical junk values (typed value corruption, JSON side)
             leaves = [p for p in paths if isinstance(_get(value, p), (str, int, float)) and not isinstance(_get(value, p), bool)]
@@ -653,7 +699,8 @@ class StepMeter:
         def bump(*a):
             meter.n += 1
             if meter.limit is not None and meter.n > meter.limit:
-                meter.limit = None
+                # raised again at every further step until the meter is stopped: the library may swallow one
+                # (an `except` around a candidate binding, a RecursionError raised while this one unwinds)
                 raise BudgetExceeded(f"step budget exhausted after {meter.n} steps")
 
         mon.use_tool_id(TOOL, "xsv-steps")
@@ -805,6 +852,31 @@ def _decoded_size(value):
     return n
 
 
+def subject_class(case, ck, payload, context):
+    """The class a time verdict is about: the requested one, or the one the library locates for a
+    class-less call (asked again, outside the measurement)."""
+    if not case.get("noclass"):
+        return str(ck)
+    try:
+        if isinstance(payload, (bytes, str)) and not case["decoder"].startswith("xml"):
+            payload = json.loads(payload)
+        if isinstance(payload, (dict, list)):
+            sample = payload[0] if isinstance(payload, list) and payload else payload
+            found = context.find_type_by_fields(set(sample.keys())) if isinstance(sample, dict) else None
+        else:
+            m = re.search(rb"<([A-Za-z_][\w.-]*:)?([A-Za-z_][\w.-]*)", payload[payload.find(b"?>") + 2 :] if payload.startswith(b"<?xml") else payload)
+            found = None
+            if m:
+                cands = [c for q in list(context.xsi_cache) if q.endswith("}" + m.group(2).decode()) or q == m.group(2).decode() for c in context.xsi_cache[q]]
+                found = cands[0] if len(cands) == 1 else None
+        if found is not None:
+            mod = found.__module__.rsplit(".", 1)[-1]
+            return f"{mod}.{found.__qualname__}"
+    except BaseException:
+        pass
+    return "noclass"
+
+
 def run_case(case, context, meter, base_steps):
     """Execute one case; returns an outcome record."""
     from sim import ops as O
@@ -822,7 +894,10 @@ def run_case(case, context, meter, base_steps):
     valid_len = len(Store.xml[case["doc"]][0]) if dec.startswith("xml") else len(Store.json[case["doc"]][0])
     got_len = len(payload) if isinstance(payload, (bytes, str)) else _decoded_size(payload)
     growth = max(1.0, got_len / max(1, valid_len))
-    budget = int(20 * base_steps.get(key, 2000) * growth) + 20000
+    linear = base_steps.get(key, 2000) * growth
+    # 20x the size-scaled cost of the valid document, but beyond two million steps never more than 4x: inputs made
+    # thousands of times larger must not buy a super-linear algorithm minutes of budget
+    budget = min(int(20 * linear) + 20000, max(2_000_000, int(4 * linear)))
     out = {"landed": landed, "budget": budget, "growth": growth}
     reader = None
     cpu0 = time.process_time()
@@ -860,7 +935,7 @@ def run_case(case, context, meter, base_steps):
         steps = meter.stop()
         out["outcome"] = "budget"
         out["detail"] = str(e)
-        out["sig"] = ["budget", dec]
+        out["sig"] = ["time", subject_class(case, ck, payload, context), dec, "budget"]
     except MemoryError as e:
         steps = meter.stop()
         out["outcome"] = "leak"
@@ -891,6 +966,8 @@ def run_case(case, context, meter, base_steps):
             out["detail"] = str(e)[:300]
     out["steps"] = steps
     out["cpu"] = time.process_time() - cpu0
+    if out["cpu"] > 1.0:
+        out["subject"] = subject_class(case, ck, payload, context)
     out["consumed"] = reader.pos if reader is not None else None
     if dec in ("xml-native", "xml-tree-native") and out["outcome"] == "instance" and not declaration_wellformed(payload):
         out["outcome"] = "accepted_malformed"
@@ -986,7 +1063,7 @@ def run_batch_cases(cases, emit):
                 summary["native_rejected_malformed"] += 1
         base_cpu = base_cpu_table.get(key, 0.001)
         if "sig" not in out and out["cpu"] > 1.0 and out["cpu"] > 300 * max(base_cpu, 0.0005) * out.get("growth", 1.0):
-            out["sig"] = ["slow", case["decoder"]]
+            out["sig"] = ["time", out.get("subject") or "noclass", case["decoder"], "slow"]
             out["detail"] = f"{out['cpu']:.2f}s of CPU for a {out.get('growth', 1.0):.1f}x sized variant of a document that takes {base_cpu * 1000:.2f}ms"
             out["outcome"] = "slow"
         if out["cpu"] > summary["max_cpu"]:
